@@ -485,6 +485,16 @@ impl World {
             }
         }
         violations.append(&mut found);
+        if matches!(op, Op::Reindex) {
+            // whatever is wrong right after reindex() is reindex's doing (it must be invisible through ids)
+            for v in violations.iter_mut() {
+                if v.owner != "C03" {
+                    v.also = Some(v.owner);
+                    v.owner = "C03";
+                }
+                v.key = format!("reindex:{}", v.key);
+            }
+        }
         if matches!(op, Op::ProtectText { .. }) {
             // whatever is wrong right after protect_text is wrong with the validation data it wrote
             for v in violations.iter_mut() {
